@@ -40,6 +40,7 @@ const (
 var (
 	errTxExist                  = errors.New("tx already exist in cache")
 	errTxPoolWaitingQueueIsFull = errors.New("evm tx pool waiting queue is full")
+	errTxNonceIsPending         = errors.New("tx nonce already exist in pending queue")
 )
 
 type ethTxPool struct {
@@ -278,6 +279,11 @@ func (tp *ethTxPool) CheckAndAdd(tx *etypes.Transaction, rawTx types.Tx) error {
 		return fmt.Errorf("nonce(%d) different with getNonce(%d)", tx.Nonce(), currentNonce)
 	}
 
+	if accountTxs := tp.pending[from]; accountTxs != nil && accountTxs.Get(tx.Nonce()) != nil {
+		// another transaction with this nonce is already executable; it could only be dropped again at promotion
+		return errTxNonceIsPending
+	}
+
 	if err := tp.addWaiting(tx, from); err != nil {
 		return err
 	}
@@ -403,6 +409,9 @@ func (tp *ethTxPool) promoteExecutables(addrs []common.Address) {
 			// pending is not full, add
 			if err := tp.pending[addr].Add(tx); err == nil {
 				pendingTxCount++
+			} else {
+				// the nonce is already pending: the tx is dropped, so it must leave the lookup set too
+				delete(tp.all, tx.Hash())
 			}
 		}
 	}
